@@ -83,6 +83,16 @@ func runExpireVotes(ctx *action.Context, tx action.RawTx) (bool, action.Response
 		return false, result
 	}
 
+	// votes expire when the voting deadline has passed, not before: the transaction is on the
+	// public router, so without this check anybody could fail any active proposal at any time
+	if proposal.Status != governance.ProposalStatusVoting || ctx.Header.Height <= proposal.VotingDeadline {
+		result := action.Response{
+			Events: action.GetEvent(expireVotes.Tags(), "expire_votes_failed"),
+			Log:    governance.ErrStatusNotVoting.Marshal(),
+		}
+		return false, result
+	}
+
 	//Update outcome and status of proposal
 	proposal.Status = governance.ProposalStatusCompleted
 	proposal.Outcome = governance.ProposalOutcomeInsufficientVotes
